@@ -17,6 +17,7 @@ import (
 	"net"
 	"sync"
 	"testing"
+	"testing/synctest"
 	"time"
 
 	"github.com/libp2p/go-libp2p/core/network"
@@ -165,22 +166,32 @@ func establish(ctx context.Context, proto string, ka, kb *sectest.Key, psk ipnet
 }
 
 type readResult struct {
-	Total     int64  `json:"bytes_delivered"`
-	BadAt     int64  `json:"first_bad_position"` // -1: none
-	Err       string `json:"err"`
-	EOF       bool   `json:"clean_eof"`
-	Overrun   bool   `json:"n_exceeds_buffer"`
-	NoProg    bool   `json:"no_progress"`
-	AfterEOF  int    `json:"bytes_after_eof"`
-	Reads     int    `json:"reads"`
-	PathInPlc int    `json:"-"`
-	PathPool  int    `json:"-"`
-	PathQueue int    `json:"-"`
+	Total    int64  `json:"bytes_delivered"`
+	BadAt    int64  `json:"first_bad_position"` // -1: none
+	Err      string `json:"err"`
+	EOF      bool   `json:"clean_eof"`
+	Overrun  bool   `json:"n_exceeds_buffer"`
+	NoProg   bool   `json:"no_progress"`
+	AfterEOF int    `json:"bytes_after_eof"`
+	// a reader that keeps reading after a (non-EOF) error: bytes it was given then, and whether they are
+	// bytes of the writer's stream at all (at the expected or any later position)
+	AfterErr      int   `json:"bytes_after_error"`
+	AfterErrAlien bool  `json:"bytes_after_error_never_sent"`
+	AfterErrAt    int64 `json:"bytes_after_error_match_position"`
+	Reads         int   `json:"reads"`
+	PathInPlc     int   `json:"-"`
+	PathPool      int   `json:"-"`
+	PathQueue     int   `json:"-"`
 }
 
 // readAll reads until error, checking every byte against prf(stream, position). sizeFn chooses the
 // buffer size for the next read given the number of bytes delivered so far.
 func readAll(c io.Reader, stream uint64, sizeFn func(delivered int64) int, frames []int) (res readResult) {
+	return readAllN(c, stream, sizeFn, frames, 0)
+}
+
+// readAllN: streamLen > 0 makes the reader read on after a non-EOF error (tamper family).
+func readAllN(c io.Reader, stream uint64, sizeFn func(delivered int64) int, frames []int, streamLen int64) (res readResult) {
 	res.BadAt = -1
 	buf := make([]byte, 140000)
 	zero := 0
@@ -232,6 +243,41 @@ func readAll(c io.Reader, stream uint64, sizeFn func(delivered int64) int, frame
 				res.AfterEOF = k
 			} else {
 				res.Err = err.Error()
+				// "the reader gets an error and never receives plaintext the writer did not send": also not
+				// when it reads again after the error (a muxer's read loop may well do that)
+				res.AfterErrAt = -1
+				for k := 0; k < 3 && streamLen > 0; k++ {
+					n2 := sizeFn(res.Total)
+					if n2 < 1 {
+						n2 = 1
+					}
+					if n2 > len(buf) {
+						n2 = len(buf)
+					}
+					m2, _ := c.Read(buf[:n2])
+					if m2 == 0 {
+						continue
+					}
+					res.AfterErr += m2
+					found := false
+					for p := res.Total; p+int64(m2) <= streamLen && !found; p++ {
+						ok := true
+						for i := 0; i < m2; i++ {
+							if buf[i] != prf(stream, p+int64(i)) {
+								ok = false
+								break
+							}
+						}
+						found = ok
+						if ok {
+							res.AfterErrAt = p
+						}
+					}
+					if !found {
+						res.AfterErrAlien = true
+					}
+					break
+				}
 			}
 			return
 		}
@@ -298,6 +344,7 @@ func TestC02(t *testing.T) {
 	rand.Read(psk)
 	s := &state{r: r, t: t, pool: sectest.NewPool(2), psk: psk}
 	s.grid()
+	s.closeAfterWrite()
 	s.mux()
 	s.tamper()
 	s.system()  // system_test.go: real loopback sockets, outside any bubble
@@ -460,6 +507,96 @@ func (s *state) grid() {
 			}
 		}
 	})
+}
+
+// closeAfterWrite: the writer writes everything and closes at once; the reader starts only then, over a
+// raw conn that hands out the final bytes TOGETHER with io.EOF in one Read call (legal io.Reader
+// behaviour that real sockets never show, wrappers and in-memory conns may): every byte must still
+// arrive unmodified, followed by EOF.
+func (s *state) closeAfterWrite() {
+	type cw struct {
+		Proto   string `json:"proto"`
+		L       int    `json:"length"`
+		Buf     int    `json:"read_buffer"`
+		EOFData bool   `json:"raw_eof_delivered_with_last_bytes"`
+		Short   int    `json:"raw_short_read"`
+	}
+	var cases []*cw
+	for _, proto := range []string{"noise", "tls", "psk", "psk+noise", "psk+tls"} {
+		for _, L := range []int{1, 999, 1000, 4096, 65519, 65520, 70000} {
+			for _, buf := range []int{1, 777, 4096, 100000} {
+				for _, short := range []int{0, 1000} {
+					cases = append(cases, &cw{proto, L, buf, true, short}, &cw{proto, L, buf, false, short})
+				}
+			}
+		}
+	}
+	run.Parallel(len(cases), 0, func(i int) {
+		c := cases[i]
+		id := fmt.Sprintf("close-after-write/%s/L%d/buf%d/eofdata=%v/sr%d", c.Proto, c.L, c.Buf, c.EOFData, c.Short)
+		if !s.r.Want(id) || s.r.TooMany() {
+			return
+		}
+		ka, kb := s.keyPair(i)
+		var rr readResult
+		var setupErr, werr error
+		var fired int64
+		br := run.Bubble(s.t, func(t *testing.T) {
+			ctx, cancel := context.WithTimeout(context.Background(), time.Minute)
+			defer cancel()
+			st, err := establish(ctx, c.Proto, ka, kb, s.psk)
+			if err != nil {
+				setupErr = err
+				return
+			}
+			st.rawB.SetEOFWithData(c.EOFData)
+			if c.Short > 0 {
+				st.rawB.SetMaxRead(func(int) int { return c.Short })
+			}
+			b := make([]byte, c.L)
+			fill(9, 0, b)
+			for off := 0; off < len(b) && werr == nil; off += 30000 {
+				end := off + 30000
+				if end > len(b) {
+					end = len(b)
+				}
+				_, werr = st.a.Write(b[off:end])
+			}
+			st.a.Close()
+			st.rawA.Close()
+			synctest.Wait()
+			st.b.SetReadDeadline(time.Now().Add(30 * time.Second))
+			rr = readAll(st.b, 9, func(int64) int { return c.Buf }, nil)
+			fired = st.rawB.EOFWithDataFired()
+			st.b.Close()
+			st.rawB.Close()
+		})
+		s.r.Eval(1)
+		detail := map[string]any{"case": c, "reader": rr, "reads_that_returned_data_and_eof": fired}
+		if s.r.BubbleFailed(br, "close-after-write", id, "reader hung", detail) {
+			return
+		}
+		if setupErr != nil || werr != nil {
+			s.r.Inconclusive(id, fmt.Sprint("setup: ", setupErr, werr))
+			return
+		}
+		if fired > 0 {
+			s.r.Count("raw_reads_returning_data_with_eof", int(fired))
+			s.r.Nontrivial(id)
+		}
+		switch {
+		case rr.BadAt >= 0:
+			s.r.Violation("close-after-write:modified-byte/"+c.Proto, id, fmt.Sprintf("byte at position %d of %d differs from what was written", rr.BadAt, c.L), detail)
+		case rr.Total != int64(c.L) || !rr.EOF:
+			s.r.Violation("close-after-write:short-or-no-eof/"+c.Proto, id, fmt.Sprintf("reader got %d of %d bytes, clean EOF=%v, err=%q", rr.Total, c.L, rr.EOF, rr.Err), detail)
+		case rr.AfterEOF > 0 || rr.Overrun || rr.NoProg:
+			s.r.Violation("close-after-write:reader-contract/"+c.Proto, id, "bytes after EOF, overrun or no progress", detail)
+		default:
+			s.r.Count("close_after_write_completed", 1)
+		}
+	})
+	s.r.Require("close_after_write_completed", 200)
+	s.r.Require("raw_reads_returning_data_with_eof", 50)
 }
 
 func head(a []int, n int) []int {
@@ -719,7 +856,7 @@ func (s *state) tamper() {
 			frames   []sectest.Frame
 			hsFrames int
 		}
-		runOne := func(id string, e *sectest.Edit) (rr readResult, applied bool, hs int, frames []sectest.Frame, br run.BubbleResult, setupErr error) {
+		runOne := func(id string, e *sectest.Edit, rbuf int) (rr readResult, applied bool, hs int, frames []sectest.Frame, br run.BubbleResult, setupErr error) {
 			ka, kb := s.pool["ed25519"][0], s.pool["ecdsa"][1]
 			br = run.Bubble(s.t, func(t *testing.T) {
 				ctx, cancel := context.WithTimeout(context.Background(), time.Minute)
@@ -758,7 +895,7 @@ func (s *state) tamper() {
 					ca.Close()
 				}()
 				cb.SetReadDeadline(time.Now().Add(30 * time.Second))
-				rr = readAll(cb, 7, func(int64) int { return 5000 }, nil)
+				rr = readAllN(cb, 7, func(int64) int { return rbuf }, nil, int64(total))
 				wg.Wait()
 				cb.Close()
 				ia.Close()
@@ -774,7 +911,7 @@ func (s *state) tamper() {
 			})
 			return
 		}
-		_, _, hs, frames, br, err := runOne("dry", nil)
+		_, _, hs, frames, br, err := runOne("dry", nil, 5000)
 		s.r.Eval(1)
 		if !br.OK() || err != nil || len(frames) <= hs {
 			s.r.Inconclusive("tamper/"+proto+"/dry", fmt.Sprint("dry run failed: ", err, br.Deadlock, br.Panic))
@@ -809,9 +946,12 @@ func (s *state) tamper() {
 			if !s.r.Want(id) || s.r.TooMany() {
 				return
 			}
-			rr, applied, _, _, br, err := runOne(id, e)
+			// reader buffer: smaller than most frames (pooled + queued remainder), a muxer-header-sized one,
+			// and one larger than every frame (in-place decryption)
+			rbuf := []int{5000, 12, 5000, 70000}[i%4]
+			rr, applied, _, _, br, err := runOne(id, e, rbuf)
 			s.r.Eval(1)
-			detail := map[string]any{"proto": proto, "edit": e, "reader": rr, "data_frames": frames[hs:]}
+			detail := map[string]any{"proto": proto, "edit": e, "reader_buffer": rbuf, "reader": rr, "data_frames": frames[hs:]}
 			if s.r.BubbleFailed(br, "tamper/"+proto, id, "reader hung after tampering", map[string]any{"edit": e}) {
 				return
 			}
@@ -829,6 +969,16 @@ func (s *state) tamper() {
 			if rr.BadAt >= 0 {
 				s.r.Violation("tamper:plaintext-not-sent-at-that-position/"+proto+"/"+e.Kind, id, fmt.Sprintf("reader received a byte at position %d that the writer did not send there", rr.BadAt), detail)
 				return
+			}
+			if rr.AfterErrAlien {
+				s.r.Violation("tamper:bytes-never-sent-delivered-after-the-error/"+proto+"/"+e.Kind, id, fmt.Sprintf("after the read error at position %d the next Read returned %d bytes that occur nowhere in the rest of the writer's stream", rr.Total, rr.AfterErr), detail)
+				return
+			}
+			if rr.Err != "" {
+				s.r.Count("tamper_reads_continued_after_error", 1)
+				if rr.AfterErr > 0 {
+					s.r.Count("tamper_genuine_later_bytes_after_error", 1)
+				}
 			}
 			// dropping the final frame(s) and then closing is indistinguishable from an early close for
 			// Noise (no authenticated termination): only the prefix rule applies there.
